@@ -54,7 +54,6 @@ Lemma step_ok_lit : forall hs pp li pa wi mo ls t,
           (fun n' => Node hs pp (lit_set t n' li) pa wi mo ls).
 Proof. intros. constructor; cbn; auto. Qed.
 
-Fixpoint node_at_app_aux (a : list bytes) : True := I.
 Lemma node_at_app : forall a b n, node_at (a ++ b) n = match node_at a n with Some s => node_at b s | None => None end.
 Proof.
   induction a as [|t r IH]; intros b n; [reflexivity|]. cbn [app node_at].
@@ -96,8 +95,8 @@ Proof.
     pose proof (step_ok_lit hs pp li pa wi mo ls t) as SO.
     rewrite (has_pattern_mk _ _ _ _ _ q h SO). specialize (IH f c s D Hs HD).
     destruct q as [|e q'].
-    + split; [auto|]. intros [(q' & X & _)|X]; [discriminate|]. apply has_pattern_node in X. exact X.
-    + destruct e as [b| | |]; try (split; [auto|intros [(q2 & X & _)|X]; [discriminate|exact X]]).
+    + split; [intros X; right; apply has_pattern_node; exact X|]. intros [(q' & X & _)|X]; [discriminate|]. apply has_pattern_node in X. exact X.
+    + destruct e as [b| | |]; cbv iota; try (split; [auto|intros [(q2 & X & _)|X]; [discriminate|exact X]]).
       destruct (beq b t) eqn:B.
       * apply beq_eq in B. subst b. rewrite IH. split.
         -- intros [(q2 & -> & X)|X]; [left; exists q2; auto|right].
@@ -139,6 +138,15 @@ Proof.
     + rewrite E. eauto.
 Qed.
 
+Lemma persist_lit : forall hs pp li pa wi mo ls t c',
+  (forall c, lit_get t li = Some c -> persist c c') ->
+  persist (Node hs pp li pa wi mo ls) (Node hs pp (lit_set t c' li) pa wi mo ls).
+Proof.
+  intros hs pp li pa wi mo ls t c' H.
+  apply (persist_mk _ (PLit t) _ (fun n' => Node hs pp (lit_set t n' li) pa wi mo ls) c' (step_ok_lit hs pp li pa wi mo ls t)).
+  exact H.
+Qed.
+
 Lemma persist_fetch : forall v0 fin,
   (forall fr n ps mi, kids_eq n (out_state (fin fr n ps mi)) /\ node_mounted (out_state (fin fr n ps mi)) = node_mounted n) ->
   forall toks i mi ps fr l, persist l (out_state (fetch_gen v0 fin None toks i mi ps fr l)).
@@ -161,7 +169,7 @@ Proof.
   - injection Hs as <-. exact HP.
   - destruct n as [hs pp li pa wi mo ls]. cbn [node_lits] in Hs. cbn [at_path].
     destruct (lit_get t li) as [c|] eqn:E; [|discriminate]. rewrite out_state_rebuild.
-    eapply persist_mk; [apply step_ok_lit|]. cbn [node_lits]. intros c0 Hc. rewrite E in Hc. injection Hc as <-.
+    apply persist_lit. intros c0 Hc. rewrite E in Hc. injection Hc as <-.
     eapply IH; eauto.
 Qed.
 
@@ -209,24 +217,24 @@ Proof.
     split; [|split; [|split]].
     + intros q h. rewrite (has_pattern_mk _ _ _ _ _ q h SO). destruct q as [|e q'].
       * rewrite (has_pattern_node (Node hs pp li pa wi mo ls)). split; [auto|intros [X|(q2 & X & _)]; [exact X|discriminate]].
-      * destruct e as [b| | |]; try (split; [auto|intros [X|(q2 & X & _)]; [exact X|discriminate]]).
+      * destruct e as [b| | |]; cbv iota; try (split; [auto|intros [X|(q2 & X & _)]; [exact X|discriminate]]).
         destruct (beq b t) eqn:B.
         -- apply beq_eq in B. subst b. rewrite HP. rewrite (has_pattern_node (Node hs pp li pa wi mo ls)). cbn [node_lits].
            split.
            ++ intros [X|(q2 & -> & X)]; [left; eauto|right; exists q2; auto].
            ++ intros [(c0 & E0 & X)|(q2 & X & Y)]; [left; congruence|].
-              cbn [lits map app] in X. injection X as ->. right. eauto.
+              cbn [lits map app] in X. injection X as ->. right. exists q2. split; [reflexivity|exact Y].
         -- split; [auto|]. intros [X|(q2 & X & _)]; [exact X|]. cbn [lits map app] in X. injection X as -> _.
            rewrite beq_refl in B. discriminate.
     + cbn [node_at node_lits]. rewrite lit_get_set_same. exact N1.
     + cbn [node_at node_lits]. rewrite E. exact N0.
-    + eapply persist_mk; [exact SO|]. cbn [node_lits]. intros c0 Hc. rewrite E in Hc. injection Hc as <-. exact PS.
+    + apply persist_lit. intros c0 Hc. rewrite E in Hc. injection Hc as <-. exact PS.
   - destruct rest as [|t2 r2].
     + (* the mount node is placed here *)
       cbn in H. injection H as <-. split; [|split; [|split]].
       * intros q h. rewrite (has_pattern_mk _ _ _ _ _ q h SO). destruct q as [|e q'].
         -- rewrite (has_pattern_node (Node hs pp li pa wi mo ls)). split; [auto|intros [X|(q2 & X & _)]; [exact X|discriminate]].
-        -- destruct e as [b| | |]; try (split; [auto|intros [X|(q2 & X & _)]; [exact X|discriminate]]).
+        -- destruct e as [b| | |]; cbv iota; try (split; [auto|intros [X|(q2 & X & _)]; [exact X|discriminate]]).
            destruct (beq b t) eqn:B.
            ++ apply beq_eq in B. subst b. split.
               ** intros X. right. exists q'. auto.
@@ -237,7 +245,7 @@ Proof.
               rewrite beq_refl in B. discriminate.
       * cbn [node_at node_lits]. rewrite lit_get_set_same. reflexivity.
       * cbn [node_at node_lits]. rewrite E. reflexivity.
-      * eapply persist_mk; [exact SO|]. cbn [node_lits]. intros c0 Hc. congruence.
+      * apply persist_lit. intros c0 Hc. congruence.
     + cbn [is_nil] in H.
       destruct (fetch_gen false mount_fin (Some M) (t2 :: r2) (S i) (if mo then i else mi) ps false empty_node) as [c'|e c'] eqn:F; [|discriminate].
       cbn in H. injection H as <-.
@@ -245,16 +253,16 @@ Proof.
       split; [|split; [|split]].
       * intros q h. rewrite (has_pattern_mk _ _ _ _ _ q h SO). destruct q as [|e q'].
         -- rewrite (has_pattern_node (Node hs pp li pa wi mo ls)). split; [auto|intros [X|(q2 & X & _)]; [exact X|discriminate]].
-        -- destruct e as [b| | |]; try (split; [auto|intros [X|(q2 & X & _)]; [exact X|discriminate]]).
+        -- destruct e as [b| | |]; cbv iota; try (split; [auto|intros [X|(q2 & X & _)]; [exact X|discriminate]]).
            destruct (beq b t) eqn:B.
            ++ apply beq_eq in B. subst b. rewrite HP. split.
               ** intros [X|(q2 & -> & X)]; [destruct (has_pattern_empty _ _ X)|right; exists q2; auto].
               ** intros [X|(q2 & X & Y)].
                  --- apply has_pattern_node in X. cbn in X. destruct X as (c0 & E0 & _). congruence.
-                 --- cbn [lits map app] in X. injection X as ->. right. eauto.
+                 --- cbn [lits map app] in X. injection X as ->. right. exists q2. split; [reflexivity|exact Y].
            ++ split; [auto|]. intros [X|(q2 & X & _)]; [exact X|]. cbn [lits map app] in X. injection X as -> _.
               rewrite beq_refl in B. discriminate.
       * cbn [node_at node_lits]. rewrite lit_get_set_same. exact N1.
       * cbn [node_at node_lits]. rewrite E. reflexivity.
-      * eapply persist_mk; [exact SO|]. cbn [node_lits]. intros c0 Hc. congruence.
+      * apply persist_lit. intros c0 Hc. congruence.
 Qed.
